@@ -30,6 +30,8 @@ impl SnapshotWriter {
             //.append(true)
             //.create_new(true)
             .create(true)
+            //an interrupted build may have left a longer file behind under the same id
+            .truncate(true)
             .open(path)
             .await?;
         let mut buf = Vec::new();
